@@ -73,7 +73,12 @@ SOCK = Obj(tc._WindSock, winds=WTUPLE, current=Int(), next_range=Real(), _last_v
 
 contract(f'{TC}::_WindSock.__init__', props=('C12',),
          params=dict(self=Obj(tc._WindSock), winds=OneOf(Const(None), WTUPLE)),
-         ensures=[('starts-in-the-first-segment', 'self.current == 0')] + SOCK_INV,
+         ensures=[('starts-in-the-first-segment', 'self.current == 0'),
+                  ('keeps-every-given-wind-in-order-zero-speed-ones-included',
+                   f'(len({W}) == 0) if winds is None else (len({W}) == len(winds) and forall(0, len(winds), lambda i: '
+                   f'raw({W}[i].until_distance) == raw(winds[i].until_distance) and raw({W}[i].velocity) == '
+                   f'raw(winds[i].velocity) and raw({W}[i].direction_from) == raw(winds[i].direction_from)))')]
+         + SOCK_INV,
          modifies=['self.*'])
 
 contract(f'{TC}::_WindSock.vector_for_range', props=('C12',),
